@@ -1,0 +1,26 @@
+//go:build verif
+
+package cluster
+
+import "github.com/semafind/semadb/models"
+
+// VerifShardInfo mirrors the unexported shardInfo for the verification harnesses.
+type VerifShardInfo struct {
+	Id         string
+	Size       int64
+	PointCount int64
+}
+
+// VerifDistributePoints exposes distributePoints.
+func VerifDistributePoints(shards []VerifShardInfo, points []models.Point, maxShardSize, maxShardPointCount int64, createShardFn func() (string, error)) (map[string][2]int, error) {
+	in := make([]shardInfo, len(shards))
+	for i, s := range shards {
+		in[i] = shardInfo{Id: s.Id, Size: s.Size, PointCount: s.PointCount}
+	}
+	return distributePoints(in, points, maxShardSize, maxShardPointCount, createShardFn)
+}
+
+// VerifShardManager exposes the node's shard manager.
+func (c *ClusterNode) VerifShardManager() *ShardManager {
+	return c.shardManager
+}
